@@ -50,6 +50,7 @@ import (
 
 	"codeberg.org/TauCeti/mangle-go/analysis"
 	"codeberg.org/TauCeti/mangle-go/ast"
+	"codeberg.org/TauCeti/mangle-go/builtin"
 	"codeberg.org/TauCeti/mangle-go/factstore"
 	"codeberg.org/TauCeti/mangle-go/functional"
 	"codeberg.org/TauCeti/mangle-go/unionfind"
@@ -259,6 +260,28 @@ func (e *explainer) solveBodyRec(premises []ast.Term, uf unionfind.UnionFind, de
 	first, rest := premises[0], premises[1:]
 	switch p := first.(type) {
 	case ast.Atom:
+		if p.Predicate.IsBuiltin() {
+			// Built-in predicates have no stored facts; decide them under the
+			// substitution. They contribute bindings but no sub-proof.
+			pattern, err := functional.EvalAtom(p, uf)
+			if err != nil {
+				return nil
+			}
+			ok, nsubsts, err := builtin.Decide(pattern, &uf)
+			if err != nil {
+				// The goal may already bind output positions (which evaluation leaves
+				// free); decide with fresh variables there and compare the outcome.
+				ok, nsubsts, err = decideWithBoundOutputs(pattern, &uf)
+			}
+			if err != nil || !ok {
+				return nil
+			}
+			var results []bodySolution
+			for _, nsubst := range nsubsts {
+				results = append(results, e.solveBodyRec(rest, *nsubst, depth, need-len(results), accAtoms, accProofs, partial)...)
+			}
+			return results
+		}
 		return e.solveAtomPremise(p, rest, uf, depth, need, accAtoms, accProofs, partial)
 	case ast.Eq:
 		ok, err := evalEq(p.Left, p.Right, uf, true)
@@ -295,6 +318,50 @@ func (e *explainer) solveBodyRec(premises []ast.Term, uf unionfind.UnionFind, de
 		// continue so the user sees an annotated result rather than nothing.
 		return e.solveBodyRec(rest, uf, depth, need, accAtoms, accProofs, true)
 	}
+}
+
+// decideWithBoundOutputs decides a built-in atom whose output arguments are
+// constants: the outputs are computed into fresh variables and the solutions that
+// reproduce the given constants are kept.
+func decideWithBoundOutputs(pattern ast.Atom, uf *unionfind.UnionFind) (bool, []*unionfind.UnionFind, error) {
+	mode, ok := builtin.Predicates[pattern.Predicate]
+	if !ok || len(mode) != len(pattern.Args) {
+		return false, nil, fmt.Errorf("not a builtin predicate: %v", pattern.Predicate)
+	}
+	args := make([]ast.BaseTerm, len(pattern.Args))
+	wanted := make(map[int]ast.Constant)
+	for i, arg := range pattern.Args {
+		if c, isConst := arg.(ast.Constant); isConst && mode[i] == ast.ArgModeOutput {
+			// A variable that the substitution does not bind yet.
+			for k := 0; ; k++ {
+				v := ast.Variable{Symbol: fmt.Sprintf("Out%d_%d__", i, k)}
+				if uf.Get(v).Equals(v) {
+					args[i] = v
+					break
+				}
+			}
+			wanted[i] = c
+		} else {
+			args[i] = arg
+		}
+	}
+	ok, nsubsts, err := builtin.Decide(ast.Atom{Predicate: pattern.Predicate, Args: args}, uf)
+	if err != nil || !ok {
+		return false, nil, err
+	}
+	var kept []*unionfind.UnionFind
+	for _, nsubst := range nsubsts {
+		matches := true
+		for i, c := range wanted {
+			if got, isConst := nsubst.Get(args[i].(ast.Variable)).(ast.Constant); !isConst || !got.Equals(c) {
+				matches = false
+			}
+		}
+		if matches {
+			kept = append(kept, nsubst)
+		}
+	}
+	return len(kept) > 0, kept, nil
 }
 
 func (e *explainer) solveAtomPremise(pAtom ast.Atom, rest []ast.Term, uf unionfind.UnionFind, depth, need int, accAtoms []ast.Atom, accProofs []*ProofNode, partial bool) []bodySolution {
